@@ -40,7 +40,7 @@ func main() {
 	repo := fs.String("repo", "/repo", "repository root")
 	spec := fs.String("spec", "/verif/spec", "directory of trusted library contracts")
 	fnRe := fs.String("fn", "", "regexp selecting functions by key")
-	timeout := fs.Int("t", 2000, "per-obligation solver timeout (ms)")
+	timeout := fs.Int("t", 0, "per-obligation solver timeout (ms); default 2000 for sweep/verify, 10000 for check")
 	verbose := fs.Bool("v", false, "verbose")
 	nonnil := fs.Bool("nonnil", false, "assume pointer parameters non-nil")
 	classRe := fs.String("class", "", "regexp selecting obligation classes")
@@ -48,6 +48,12 @@ func main() {
 	fs.BoolVar(&debugPanics, "panics", false, "do not recover encoder panics")
 	scratch := fs.String("scratch", "", "scratch directory")
 	fs.Parse(os.Args[2:])
+	if *timeout == 0 {
+		*timeout = 2000
+		if cmd == "check" {
+			*timeout = 10000
+		}
+	}
 	switch cmd {
 	case "check":
 		os.Exit(cmdCheck(fs.Args(), *repo, *spec, *timeout, *verbose))
